@@ -45,8 +45,10 @@ def corpus():
                                D.cls('Tw', [D.ctor('Tw'), D.method(single(T('void')), 'serialize', [], 1)],
                                      tpl=[D.tparam('A', [I]), D.tparam('B', [T('double')])])])]
     c['includes'] = [D.include('z/last.h'), D.include('a/first.h'), D.ns('gt', [D.include('m/mid.h'), D.include('gt/b.h'),
-                     D.cls('Inc', [D.ctor('Inc')]), D.ns('deep', [D.include('deep/c.h'), D.include('a/again.h')])]),
-                     D.include('q/tail.h'), D.func(single(I), 'incf', [])]
+                     D.cls('Inc', [D.ctor('Inc')]), D.ns('deep', [D.include('deep/c.h'), D.include('a/again.h'), D.include('a/first.h')])]),
+                     D.include('q/tail.h'), D.func(single(I), 'incf', []), D.include('z/last.h'), D.include('m/mid.h')]
+    # (headers named more than once, at different levels: whatever a generator does with repeated headers has to be
+    #  the same in every process)
     for tag, mname, rt in (('tdA', 'width', 'int'), ('tdB', 'height', 'double')):
         c[tag] = [D.ns('gt', [D.cls('Box', [D.ctor('Box', [arg(T('T'), 'v')]), D.method(single(T(rt)), mname, [], 1)], tpl=[D.tparam('T')]),
                               D.func(single(T('T')), 'unbox', [arg(T('T', 1, '&'), 'b'), arg(T(rt), mname)], tpl=[D.tparam('T')]),
@@ -135,6 +137,19 @@ try:
     res['multi/pybind'] = hashlib.sha256(open(os.path.join(out, 'multi.cpp'), 'rb').read()).hexdigest()
 except Exception as e:
     res['multi/pybind'] = 'EXC %s' % type(e).__name__
+try:
+    ml = os.path.join(work, 'out-' + sys.argv[3], 'multi', 'toolbox')
+    msrcs = [os.path.join(work, 'src', n + '.i') for n in ('serial', 'includes', 'tabA', 'includes') if n in names]
+    MatlabWrapper(module_name='multi', ignore_classes=[''], use_boost_serialization=True).wrap(msrcs, path=ml)
+    h = hashlib.sha256()
+    for dp, dn, fn in sorted(os.walk(ml)):
+        dn.sort()
+        for f in sorted(fn):
+            p = os.path.join(dp, f)
+            h.update(os.path.relpath(p, ml).encode()); h.update(open(p, 'rb').read())
+    res['multi/matlab'] = h.hexdigest()
+except Exception as e:
+    res['multi/matlab'] = 'EXC %s' % type(e).__name__
 gone = sorted(p for p in set(writes) if not os.path.exists(p))
 res['cwd-unchanged'] = str(os.getcwd() == START_CWD)
 print(json.dumps({'digests': res, 'reads': sorted(set(reads)), 'writes': sorted(set(writes)), 'gone': gone}))
